@@ -94,9 +94,18 @@ class SyncMethodsAsyncRecorder(AsyncEventProcessor):
         self.events.append("shutdown")
 
 
+_KEPT: dict[str, Any] = {}
+
+
 def _recorder(record_events: bool, yielding: Any, runner: str) -> Any:
     if not record_events:
         return None
+    if yielding == "kept":
+        # ONE processor object kept by the user across top-level calls (a progress bar, a trace collector in a notebook): every call delivers
+        # its own complete stream to it and shuts it down once
+        if "rec" not in _KEPT:
+            _KEPT["rec"] = Recorder()
+        return _KEPT["rec"]
     if runner == "async" and yielding == "syncmethods":
         return SyncMethodsAsyncRecorder()
     if runner == "async" and yielding:
@@ -237,6 +246,7 @@ def run_case(
     if entrypoint is not None:
         kwargs["entrypoint"] = entrypoint
     rec = _recorder(record_events, yielding_recorder, runner)
+    rec_from, rec_sd = (len(rec.events), rec.shutdowns) if rec is not None else (0, 0)
     procs = list(processors or [])
     if rec is not None:
         procs.append(rec)
@@ -284,8 +294,8 @@ def run_case(
     obs["missing_warnings"] = sorted(str(w.message).split(". Available")[0] for w in (wlist or []) if "Requested outputs not found" in str(w.message))
     obs["calls"] = [[fid, [[k, enc_val(v)] for k, v in kw.items()]] for fid, kw in env.log[start_log:]]
     if rec is not None:
-        obs["events"] = [canon_event(e) for e in rec.events]
-        obs["shutdowns"] = rec.shutdowns
+        obs["events"] = [canon_event(e) for e in rec.events[rec_from:]]
+        obs["shutdowns"] = rec.shutdowns - rec_sd
     return obs
 
 
@@ -306,6 +316,16 @@ def prior_run(kind: str, max_concurrency: int) -> Any:
         nodes.append({"name": "pask", "kind": "interrupt", "params": [["pv", None]], "dataOuts": ["pans"], "body": {"b": "handler", "k": None}})
     else:
         nodes.append({"name": "pb", "kind": "fn", "params": [["pv", None]], "dataOuts": ["pw"], "body": {"b": "fail", "t": "E_prior"}})
+    if kind.startswith("map-"):
+        # an earlier map() in the same task that ends EARLY: over zero items, over lists of unequal length (refused), or in continue mode with
+        # a broadcast input missing for every item — whatever limit it was given is gone when it returns
+        g = build.build_program([{"name": "prior", "nodes": [{"name": "pm", "kind": "fn", "params": [["px", None], ["py", None]], "dataOuts": ["pv"],
+                                                              "body": {"b": "tag", "t": "pm"}}], "bound": []}], env, async_bodies=False)[-1]
+        if kind == "map-empty":
+            return lambda: AsyncRunner().map(g, {"px": [], "py": 1}, map_over="px", max_concurrency=max_concurrency)
+        if kind == "map-zip-mismatch":
+            return lambda: AsyncRunner().map(g, {"px": [1, 2], "py": [1]}, map_over=["px", "py"], max_concurrency=max_concurrency)
+        return lambda: AsyncRunner().map(g, {"px": [1, 2]}, map_over="px", max_concurrency=max_concurrency, error_handling="continue")
     g = build.build_program([{"name": "prior", "nodes": nodes, "bound": []}], env, async_bodies=False)[-1]
     kw: dict[str, Any] = {"max_concurrency": max_concurrency}
     if kind == "fail-continue":
@@ -396,6 +416,7 @@ def map_case(
     if "onMissing" in cfg:
         kwargs["on_missing"] = cfg["onMissing"]
     rec = _recorder(record_events, yielding_recorder, runner)
+    rec_from, rec_sd = (len(rec.events), rec.shutdowns) if rec is not None else (0, 0)
     if rec is not None:
         kwargs["event_processors"] = [rec]
     obs: dict[str, Any] = {"status": "ok"}
@@ -430,6 +451,6 @@ def map_case(
     obs["missing_warnings"] = sorted(str(w.message).split(". Available")[0] for w in (wlist or []) if "Requested outputs not found" in str(w.message))
     obs["calls"] = [[fid, [[k, enc_val(v)] for k, v in kw.items()]] for fid, kw in env.log]
     if rec is not None:
-        obs["events"] = [canon_event(e) for e in rec.events]
-        obs["shutdowns"] = rec.shutdowns
+        obs["events"] = [canon_event(e) for e in rec.events[rec_from:]]
+        obs["shutdowns"] = rec.shutdowns - rec_sd
     return obs
